@@ -150,5 +150,5 @@ func genC06(rt *rapid.T) Case {
 }
 
 func TestC06Execution(t *testing.T) {
-	common.Check(t, "C06", "TestC06Execution", 1200, 60000, genC06, c06Prop)
+	common.Check(t, "C06", "TestC06Execution", 5000, 100000, genC06, c06Prop)
 }
